@@ -1204,7 +1204,9 @@ func aggMain(args []string) {
 			cfg.mode, cfg.kind, cfg.k, cfg.q = "dropstress", "jsonlines", 8, 1+r.Intn(2)
 			cfg.per = nil
 			for g := 0; g < cfg.k; g++ {
-				cfg.per = append(cfg.per, 3000+r.Intn(2000))
+				// long enough (milliseconds) that the goroutines really overlap after the gate opens: with a few
+				// thousand reports each one was often finished before the next was scheduled on a quiet machine
+				cfg.per = append(cfg.per, 40000+r.Intn(20000))
 			}
 		}
 		if other {
